@@ -39,6 +39,12 @@ def storage_histories(mode, tier, seed):
             hs.append(gen.gen_history(seed * 500009 + i, "crash-nc/%d" % i, "nocompact", n_ops=6, maxtx=4))
         for i in range(n):
             hs.append(gen.gen_history(seed * 600011 + i, "crash-cp/%d" % i, "compact", n_ops=7, maxtx=4))
+    elif mode == "tails":
+        n = 3 if tier == "quick" else 40
+        for i in range(n):
+            hs.append(gen.gen_history(seed * 510007 + i, "tail-nc/%d" % i, "nocompact", n_ops=5, maxtx=4))
+        for i in range(n):
+            hs.append(gen.gen_history(seed * 610009 + i, "tail-cp/%d" % i, "compact", n_ops=6, maxtx=4))
     elif mode == "fault":
         n = 5 if tier == "quick" else 40
         for i in range(n):
@@ -102,6 +108,8 @@ def storage_family(mode, tier, seed, histories=None, tag=None):
                 f[k] = ev[k]
         if ev and ev.get("ev") == "crash":
             f["image"] = ev.get("kind")
+            if "tail" in ev:
+                f["tail"] = ev["tail"]
     # fault mode: attach the failing I/O site of the history to each of its findings
     if mode == "fault":
         sites = {}
@@ -126,6 +134,8 @@ def storage_family(mode, tier, seed, histories=None, tag=None):
                 k = "dump/" + e.get("after", "")
             if k == "crash":
                 k = "crash/" + e.get("kind", "") + "/" + e.get("during", "")
+                if "tail" in e:
+                    k = "tail/" + e["tail"] + "/" + e.get("during", "")
             census[k] = census.get(k, 0) + 1
     # binding self-test: a corrupted observation must be rejected
     selftest = binding_selftest(tp, cd, tag + "-" + tier)
@@ -481,6 +491,13 @@ def c01(tier, seed, replay):
 def c02(tier, seed, replay):
     return storage_prop("C02", tier, seed, "crash", ["crash/"],
                         "crash images: process death after every I/O step, power loss = every file as of its last sync_data", replay)
+
+
+@reg("C17")
+def c17(tier, seed, replay):
+    return storage_prop("C17", tier, seed, "tails", ["tail/"],
+                        "process-death images at every I/O step, each extended by zeros / random bytes / a huge "
+                        "length / a short body / a bad checksum / a flipped bit in the last record", replay)
 
 
 @reg("C08")
